@@ -212,4 +212,86 @@ theorem asyncFlush_inv {s : WS} (o : Out) (id : Nat) (hI : s.Inv) :
     have hI1 : ({ s with flushing := true, owner := id } : WS).Inv := ⟨h1, h2, fun h => by cases h⟩
     exact asyncRun_inv _ _ o true hI1 (fun _ => ⟨h3 hf', rfl⟩)
 
+theorem asyncRun_res : ∀ (fuel : Nat) (s : WS) (o : Out) (start : Bool), (asyncRun fuel s o start).2.res = o.res := by
+  intro fuel
+  induction fuel with
+  | zero => intro s o start; rfl
+  | succ fuel ih =>
+    intro s o start
+    unfold asyncRun
+    cases start with
+    | true =>
+      simp only [if_true]
+      cases s.pending with
+      | nil => rfl
+      | cons fr rest =>
+        dsimp only
+        split
+        · rfl
+        · exact ih _ _ _
+    | false =>
+      simp only [Bool.false_eq_true, if_false]
+      cases s.inflight with
+      | none => rfl
+      | some w =>
+        dsimp only
+        split
+        · rw [ih]
+        · rfl
+
+theorem asyncFlush_res (s : WS) (o : Out) (id : Nat) : (asyncFlush s o id).2.res = o.res := by
+  unfold asyncFlush
+  split
+  · rfl
+  · exact asyncRun_res _ _ _ _
+
+/-! ### Operations -/
+
+/-- Scripts: every operation gets its index as callback id. -/
+def runOps : WS → Nat → List WOp → M (Option WS)
+  | s, _, [] => pure (some s)
+  | s, id, op :: rest => do
+      match (← step s id op) with
+      | none => pure none
+      | some (s', _) => runOps s' (id + 1) rest
+
+theorem submit_inv {s : WS} (o : Out) (async : Bool) (id : Nat) (fr : List UInt8) (hI : s.Inv) {s' : WS} {o' : Out}
+    (h : submit s o async id fr = some (s', o')) :
+    s'.Inv ∧ s'.hist = s.hist ++ [fr] ∧ s'.max = s.max ∧ (async = false → s'.Quiescent ∧ o'.res = some .nil) ∧
+    (async = true → o'.res = o.res) := by
+  have hI' := hI
+  obtain ⟨h1, h2, h3⟩ := hI'
+  have hI1 : ({ s with pending := s.pending ++ [fr], hist := s.hist ++ [fr] } : WS).Inv := by
+    refine ⟨?_, h2, h3⟩
+    show (s.hist ++ [fr]).flatten = s.out ++ s.rem ++ (s.pending ++ [fr]).flatten
+    rw [List.flatten_append, List.flatten_append, h1]; simp [List.append_assoc]
+  unfold submit at h
+  dsimp only at h
+  cases async with
+  | true =>
+    simp only [if_true, Option.some.injEq] at h
+    have := asyncFlush_inv o id hI1
+    have hr := asyncFlush_res { s with pending := s.pending ++ [fr], hist := s.hist ++ [fr] } o id
+    rw [h] at this hr
+    exact ⟨this.1, this.2.1, this.2.2.1, (fun hc => by cases hc), fun _ => hr⟩
+  | false =>
+    simp only [Bool.false_eq_true, if_false] at h
+    split at h
+    · cases h
+    · rename_i hnf
+      have hnone : s.inflight = none := by
+        cases hi : s.inflight with
+        | none => rfl
+        | some w => exact absurd (Or.inl (by rw [hi]; rfl)) hnf
+      cases hfs : flushSync { s with pending := s.pending ++ [fr], hist := s.hist ++ [fr] } o with
+      | none => rw [hfs] at h; cases h
+      | some r =>
+        obtain ⟨s2, o2⟩ := r
+        rw [hfs] at h
+        simp only [Option.map_some, Option.some.injEq, Prod.mk.injEq] at h
+        obtain ⟨rfl, rfl⟩ := h
+        obtain ⟨hi2, hq2⟩ := flushSync_inv hI1 hnone hfs
+        obtain ⟨_, _, _, a4, _, _, a7, _⟩ := flushSync_spec hfs
+        exact ⟨hi2, a4, a7, (fun _ => ⟨hq2, rfl⟩), fun hc => by cases hc⟩
+
 end Sonic.Model.WsStream
